@@ -18,6 +18,13 @@ PROOFS = ["proofs/FsmBase.v", "proofs/FsmGraph.v", "proofs/FsmStream.v", "proofs
           "proofs/FsmMain.v", "proofs/FsmExtra.v", "proofs/FsmCandidate.v", "model/Fsm.v", "model/FsmRunners.v", "gen/FsmTable.v", "lib/LTS.v"]
 GEN = os.path.join(C.COQ, "gen", "FsmTable.v")
 ST = ["New", "Booting", "Running", "Reloading", "Stopping", "Stopped", "Error", "Unknown"]
+# harness mode (first component of a case id) -> the runner it drives (used in violation keys)
+RUNNER = {"compfail": "composite", "slowsub": "raw"}
+
+
+def runner_of(cid):
+    m = cid.split(":")[0]
+    return RUNNER.get(m, m)
 
 
 def regen_table(run):
@@ -141,14 +148,14 @@ def classify(run, line_of, mism, stats):
     todo = []
     for l in mism:
         t = l.split(" ", 3)
-        shape = (t[1], t[2].split(":")[0], (t[3].split()[0] if len(t) > 3 and t[1] in ("result", "accept", "walk") else ""))
+        shape = (t[1], runner_of(t[2]), (t[3].split()[0] if len(t) > 3 and t[1] in ("result", "accept", "walk") else ""))
         if t[1] == "result" and len(t) > 3:
             case = line_of.get(t[2], "")
             evs = case.split("\t")[3].split(" ") if case else []
             shape = shape + (reload_racing_return(evs),)
         if t[1] == "accept":
             m_at = re.search(r"at=(\S+)", l)
-            shape = (t[1], t[2].split(":")[0], m_at.group(1) if m_at else "")
+            shape = (t[1], runner_of(t[2]), m_at.group(1) if m_at else "")
         seen_shape[shape] = seen_shape.get(shape, 0) + 1
         if seen_shape[shape] <= 3:
             todo.append(l)
@@ -175,19 +182,19 @@ def classify(run, line_of, mism, stats):
             run.violation("stream:stale-replay", payload,
                           "a subscriber received the current state and then the older changes again (got/hist in the payload)")
         elif kind in ("stream-unexplained", "closed-without-cancel", "not-closed"):
-            run.violation("stream:%s:%s" % (kind, cid.split(":")[0]), payload,
+            run.violation("stream:%s:%s" % (kind, runner_of(cid)), payload,
                           "a subscriber's stream is not s0 :: changes (kind %s): %s" % (kind, detail[:200]))
         elif kind == "walk":
             a, b = detail.split()[0].split("=")[1].split(">")
-            run.violation("walk:%s:%s->%s" % (cid.split(":")[0], ST[int(a)], ST[int(b)]), payload,
+            run.violation("walk:%s:%s->%s" % (runner_of(cid), ST[int(a)], ST[int(b)]), payload,
                           "the observed state history is not a walk in the lifecycle graph: %s" % detail)
         elif kind == "isrunning":
-            run.violation("isrunning:%s" % cid.split(":")[0], payload, "IsRunning() disagrees with GetState() == Running: %s" % detail)
+            run.violation("isrunning:%s" % runner_of(cid), payload, "IsRunning() disagrees with GetState() == Running: %s" % detail)
         elif kind in ("raw-op", "raw-get"):
             run.violation("corr-machine:%s" % detail.split()[0], dict(payload, theorem="correspondence (Fsm.op_result vs finitestate.Machine)"),
                           "finitestate.Machine disagrees with the machine model on %s" % detail, True)
         elif kind == "hang":
-            run.violation("hang:%s" % cid.split(":")[0], payload, "Run() did not return within the scenario's bound", True)
+            run.violation("hang:%s" % runner_of(cid), payload, "Run() did not return within the scenario's bound", True)
         elif kind == "accept":
             # the trace is outside the runner model: reproduce before alarming (a descheduled logger can reorder a log)
             again = rerun_case(cid, 2)
@@ -197,15 +204,15 @@ def classify(run, line_of, mism, stats):
                 classify(run, {cid: again[0][0]}, other, stats)
             at = re.search(r"at=(\S+)", detail)
             if rej and at and at.group(1).startswith("0,7,"):
-                run.violation("isrunning:%s" % cid.split(":")[0], dict(payload, reruns=[a[0] for a in again]),
+                run.violation("isrunning:%s" % runner_of(cid), dict(payload, reruns=[a[0] for a in again]),
                               "IsRunning() returned %s where no schedule of the model explaining the trace is in a state with that "
                               "answer (IsRunning <> (state = Running)): %s" % (at.group(1)[-1], detail))
             elif rej:
-                run.violation("corr-accept:%s:%s" % (cid.split(":")[0], at.group(1) if at else "?"),
+                run.violation("corr-accept:%s:%s" % (runner_of(cid), at.group(1) if at else "?"),
                               dict(payload, theorem="correspondence B: runner model (FsmRunners.v) does not accept the implementation's trace",
                                    reruns=[a[0] for a in again]),
                               "the %s runner produced a trace its model cannot produce (%s); no input found on which the property itself fails"
-                              % (cid.split(":")[0], detail), True)
+                              % (runner_of(cid), detail), True)
             else:
                 stats["accept_unreproduced"] = stats.get("accept_unreproduced", 0) + 1
         else:
@@ -236,7 +243,8 @@ def run(run):
     quick = run.tier == "quick"
     BATCH_TIMEOUT[0] = 100 if quick else 1500
     shards = 4 if quick else max(4, C.NPROC // 2)
-    plan = [("raw", 500 if quick else 5000), ("composite", 250 if quick else 3000),
+    plan = [("compfail", 48 if quick else 1500), ("slowsub", 2 if quick else 12),
+            ("raw", 500 if quick else 5000), ("composite", 230 if quick else 3000),
             ("http", 28 if quick else 450), ("cluster", 14 if quick else 260)]
     stats, line_of, mism, samples = {}, {}, [], []
     # corpus first: recorded interesting cases (re-generated from their ids; scheduling may differ)
@@ -264,6 +272,11 @@ def run(run):
                 mism += mm
                 for k, v in summ.items():
                     stats[k] = stats.get(k, 0) + v
+                if mode == "slowsub":
+                    # the deliberate witness of what lies outside the hypothesis (consumer silent for longer than
+                    # the forwarder's grace after the cancel): must be explained by Fsm.classify_slow, nothing else
+                    stats["slow_witness"] = stats.get("slow_witness", 0) + summ.get("stream_slow_after_cancel", 0)
+                    stats["slow_witness_cases"] = stats.get("slow_witness_cases", 0) + summ.get("raw", 0)
                 if lines and len(samples) < 8:
                     samples.append(next(iter(lines.values()))[:600])
     # the recorded stream finding's witness shape, replayed on the implementation
@@ -284,6 +297,11 @@ def run(run):
         else:
             run.notes.append("the stale-replay witness was not exhibited by this run's storm leg (timing dependent)")
     classify(run, line_of, mism, stats)
+    slow_elsewhere = stats.get("stream_slow_after_cancel", 0) - stats.get("slow_witness", 0)
+    if slow_elsewhere > 0:
+        run.notes.append("%d subscriber stream(s) outside the deliberate slowsub witness were shortened after their cancel with the close seen "
+                         ">= 100 ms (finitestate's forwardGrace) after it: the harness' consumer did not keep reading (machine load); "
+                         "outside the property's hypothesis, classified by Fsm.classify_slow, counted, not a disagreement" % slow_elsewhere)
     cov = run.coverage
     cov.update({
         "evaluations": stats.get("raw", 0) + stats.get("run", 0) + stats.get("storm_subs", 0),
